@@ -115,6 +115,13 @@ spec fn fl_count(sh: MDBShardInfo, data: Seq<u8>, h: MerkleHash) -> nat {
     matches(data, fl_rs(sh), fl_psz(), fl_n(sh), spec_truncate(h)).len()
 }
 
+// the cas (xorb) lookup table
+spec fn cl_rs(sh: MDBShardInfo) -> int { sh.metadata.cas_lookup_offset as int }
+spec fn cl_n(sh: MDBShardInfo) -> int { sh.metadata.cas_lookup_num_entry as int }
+spec fn cl_count(sh: MDBShardInfo, data: Seq<u8>, h: MerkleHash) -> nat {
+    matches(data, cl_rs(sh), fl_psz(), cl_n(sh), spec_truncate(h)).len()
+}
+
 // every lookup entry under the truncated hash has its entry index among the first cnt candidates ...
 spec fn all_listed<R: VxReadSeek>(sh: MDBShardInfo, data: Seq<u8>, h: MerkleHash, cnt: int, dest: Seq<u32>) -> bool {
     forall|i: int| 0 <= i < fl_n(sh) && #[trigger] fl_key(sh, data, i) == spec_truncate(h)
@@ -173,6 +180,23 @@ impl MDBShardInfo {
             /*@C09*/ fl_count(*self, old(reader).data(), *file_hash) >= 8 ==> ret is Err,
             // and an error only then or after a failed reader operation
             /*@C09*/ ret is Err ==> final(reader).failed() || fl_count(*self, old(reader).data(), *file_hash) >= 8,
+            old(reader).failed() ==> final(reader).failed(),
+//@ end
+
+//@ extract mdb_shard/src/shard_format.rs in `impl MDBShardInfo` fn get_cas_info_index_by_hash
+//@ ret ret
+//@ contract
+        requires
+            search_pre::<u32>(old(reader).data(), self.metadata.cas_lookup_offset, self.metadata.cas_lookup_num_entry),
+        ensures
+            final(reader).data() == old(reader).data(),
+            // Ok(cnt): fewer than 8 candidates, cnt is the exact number of cas lookup entries under the truncated hash, and
+            // dest_indices[..cnt] holds the entry indices of all of them (distinct entries)
+            /*@C09*/ ret matches Ok(cnt) ==> cnt < 8 && cnt == cl_count(*self, old(reader).data(), *cas_hash)
+                && stored_ok::<R, u32, VxReadU32>(VxReadU32, old(reader).data(), cl_rs(*self), fl_psz(), cl_n(*self),
+                                                   spec_truncate(*cas_hash), cnt as int, final(dest_indices)@),
+            /*@C09*/ cl_count(*self, old(reader).data(), *cas_hash) >= 8 ==> ret is Err,
+            /*@C09*/ ret is Err ==> final(reader).failed() || cl_count(*self, old(reader).data(), *cas_hash) >= 8,
             old(reader).failed() ==> final(reader).failed(),
 //@ end
 
